@@ -18,6 +18,12 @@ set_option linter.unusedVariables false
 /-- a model result `(state, returned normally?)` in the shape of a regenerated method -/
 def ofFlag {σ : Type} (r : σ × Bool) : σ × Option Unit := (r.1, if r.2 then some () else none)
 
+theorem ofFlag_fst {σ : Type} (r : σ × Bool) : (ofFlag r).1 = r.1 := rfl
+theorem ofFlag_none {σ : Type} (r : σ × Bool) : (ofFlag r).2 = none ↔ r.2 = false := by
+  rcases r with ⟨s, _ | _⟩ <;> simp [ofFlag]
+theorem ofFlag_some {σ : Type} (r : σ × Bool) : (ofFlag r).2 = some () ↔ r.2 = true := by
+  rcases r with ⟨s, _ | _⟩ <;> simp [ofFlag]
+
 /-! ### generation independent: the sequencing combinators -/
 
 @[simp] theorem bindS_ret {σ α : Type} (r : σ × Option α) : Py.bindS r (fun s a => (s, some a)) = r := by
